@@ -582,6 +582,16 @@ enum Ext {
     None,
     Point,
     Range,
+    /// a range whose two ends coincide (still a range extent)
+    EmptyRange,
+    /// a range whose end lies before its start (a clock stepped back during the span; still a range extent)
+    BackRange,
+}
+
+impl Ext {
+    fn is_range(self) -> bool {
+        matches!(self, Ext::Range | Ext::EmptyRange | Ext::BackRange)
+    }
 }
 
 #[derive(Clone, Copy, Debug, PartialEq)]
@@ -608,7 +618,7 @@ fn route(ev: &Ev, signals: &BTreeSet<Signal>) -> Option<Signal> {
     if ev.kind == Kind::Metric && matches!(ev.mval, MVal::Number | MVal::Sequence) && signals.contains(&Signal::Metrics) {
         return Some(Signal::Metrics);
     }
-    if ev.kind == Kind::Span && ev.ext == Ext::Range && signals.contains(&Signal::Traces) {
+    if ev.kind == Kind::Span && ev.ext.is_range() && signals.contains(&Signal::Traces) {
         return Some(Signal::Traces);
     }
     if signals.contains(&Signal::Logs) {
@@ -625,6 +635,8 @@ fn emit_one(otlp: &emit_otlp::Otlp, ev: &Ev, n: u64) {
         Ext::None => None,
         Ext::Point => Some(emit::Extent::point(ts)),
         Ext::Range => Some(emit::Extent::range(ts..ts2)),
+        Ext::EmptyRange => Some(emit::Extent::range(ts..ts)),
+        Ext::BackRange => Some(emit::Extent::range(ts2..ts)),
     };
     let filler: String = if ev.payload == 0 {
         String::new()
@@ -711,7 +723,7 @@ impl Engine for OtlpSim {
 
     fn rule(&self) -> &'static str {
         if self.focus == "C14" {
-            "one run = one subset of the three signals (all eight occur) x transport per signal x a generated event stream over kind {none, span, metric, unknown} x extent {none, point, range} x metric value {number, numeric sequence, text, missing}, fault-free or with collector faults / a dead host; the event-shape dimension is ordinary seeded generation, simulation contributes the observation point (collector endpoints after worker, transport and retries) and the outage configurations; non-trivial = at least two signals configured or a fault fired; distinct = distinct history hash"
+            "one run = one subset of the three signals (all eight occur) x transport per signal x a generated event stream over kind {none, span, metric, unknown} x extent {none, point, range, empty range, backwards range} x metric value {number, numeric sequence, text, missing}, fault-free or with collector faults / a dead host; the event-shape dimension is ordinary seeded generation, simulation contributes the observation point (collector endpoints after worker, transport and retries) and the outage configurations; non-trivial = at least two signals configured or a fault fired; distinct = distinct history hash"
         } else {
             "one run = 1-40 events (a fraction with 100-300 KiB payloads so one batch spans several requests) through 1-3 signals over HTTP/JSON, HTTP/protobuf or gRPC with gzip on/off, against a collector that per request acknowledges, rejects (4xx/5xx, grpc-status), closes before or after reading, resets mid-body, stalls until the 30 s client timeout, answers slowly, refuses connections, or is down forever for one signal; non-trivial = a fault fired, a batch was split into several requests, or more than one signal carried events; distinct = distinct history hash"
         }
@@ -762,9 +774,9 @@ impl Engine for OtlpSim {
                 *ch.pick(&[Kind::None, Kind::None, Kind::Span, Kind::Metric])
             };
             let ext = if c14 {
-                *ch.pick(&[Ext::None, Ext::Point, Ext::Range])
+                *ch.pick(&[Ext::None, Ext::Point, Ext::Range, Ext::Range, Ext::EmptyRange, Ext::BackRange])
             } else if kind == Kind::Span {
-                Ext::Range
+                *ch.pick(&[Ext::Range, Ext::Range, Ext::Range, Ext::EmptyRange, Ext::BackRange])
             } else {
                 Ext::Point
             };
